@@ -479,7 +479,7 @@ Lemma initial_counted cfg W q : forall n idx st st', initial n idx cfg W q st = 
 Proof.
   induction n as [|n IH]; intros idx st st' E Hc; cbn [initial] in E; [injection E as <-; exact Hc|].
   destruct (is_termination (cfg_terms cfg) (t_stat_gen (s_tele st)) (o_time W) (o_other W) (s_tpolls st)) as [term tp].
-  destruct (est_exceeds (cfg_terms cfg) (t_stat_gen (s_tele st)) (o_init_quota W idx) || term).
+  destruct (initial_stops cfg (s_pop st) (est_exceeds (cfg_terms cfg) (t_stat_gen (s_tele st)) (o_init_quota W idx)) term).
   - injection E as <-. apply (counted_ext st _ [EvTerm (t_stat_gen (s_tele st)) term; EvEstimate (t_stat_gen (s_tele st))] Hc); reflexivity.
   - destruct (process _ q _) as [p|]; [|discriminate]. apply (IH _ _ _ E).
     apply (counted_ext st _ ([EvTerm (t_stat_gen (s_tele st)) term; EvEstimate (t_stat_gen (s_tele st))]
@@ -617,7 +617,7 @@ Section Evolve.
     - exists st. split; [reflexivity|]. split; [exact Hpop|]. split; [reflexivity|]. split; [reflexivity|].
       split; [exists []; rewrite app_nil_r; split; [reflexivity|cbn; lia]|lia].
     - destruct (is_termination (cfg_terms cfg) (t_stat_gen (s_tele st)) (o_time W) (o_other W) (s_tpolls st)) as [term tp].
-      destruct (est_exceeds (cfg_terms cfg) (t_stat_gen (s_tele st)) (o_init_quota W idx) || term).
+      destruct (initial_stops cfg (s_pop st) (est_exceeds (cfg_terms cfg) (t_stat_gen (s_tele st)) (o_init_quota W idx)) term).
       + eexists. split; [reflexivity|]. cbn [s_pop s_tele s_iters s_polls]. split; [exact Hpop|]. split; [reflexivity|]. split; [reflexivity|].
         split; [exists []; rewrite app_nil_r; split; [reflexivity|cbn; lia]|lia].
       + destruct (process_good (o_init_ev W idx (init_operator cfg W idx)) (mkP (init jobs) (c_reg cfg) (s_polls st) 0)
@@ -631,16 +631,22 @@ Section Evolve.
         exists ([p_sol p] ++ l). rewrite Hl, <- app_assoc. split; [reflexivity|cbn [app length]; lia].
   Qed.
 
+  (* the first free slot builds a solution: the population is still empty (the code as it is), or both stop tests answer false *)
   Lemma initial_first n idx st :
-    fst (is_termination (cfg_terms cfg) (t_stat_gen (s_tele st)) (o_time W) (o_other W) (s_tpolls st)) = false ->
-    est_exceeds (cfg_terms cfg) (t_stat_gen (s_tele st)) (o_init_quota W idx) = false ->
+    (c_legacy_stop cfg = false /\ s_pop st = [])
+    \/ (fst (is_termination (cfg_terms cfg) (t_stat_gen (s_tele st)) (o_time W) (o_other W) (s_tpolls st)) = false
+        /\ est_exceeds (cfg_terms cfg) (t_stat_gen (s_tele st)) (o_init_quota W idx) = false) ->
     Forall (Good jobs) (s_pop st) ->
     exists st1, initial (S n) idx cfg W q st = Some st1
                 /\ Forall (Good jobs) (s_pop st1) /\ s_tele st1 = s_tele st /\ s_iters st1 = s_iters st /\ s_pop st1 <> [].
   Proof.
-    intros Ht He Hpop. cbn [initial].
+    intros Hgo Hpop. cbn [initial].
     destruct (is_termination (cfg_terms cfg) (t_stat_gen (s_tele st)) (o_time W) (o_other W) (s_tpolls st)) as [term tp].
-    cbn [fst] in Ht. subst term. rewrite He. cbn [orb].
+    assert (Estop : initial_stops cfg (s_pop st) (est_exceeds (cfg_terms cfg) (t_stat_gen (s_tele st)) (o_init_quota W idx)) term = false).
+    { unfold initial_stops. destruct Hgo as [[Hl He]|[Ht He]].
+      - rewrite Hl, He. reflexivity.
+      - cbn [fst] in Ht. subst term. rewrite He. cbn [orb]. apply andb_false_r. }
+    rewrite Estop.
     destruct (process_good (o_init_ev W idx (init_operator cfg W idx)) (mkP (init jobs) (c_reg cfg) (s_polls st) 0)
                            (proj1 HW idx _) (homes_init jobs)) as (p & E & Hg & _).
     fold jobs. rewrite E.
@@ -794,7 +800,16 @@ Section Evolve.
 
   (* the population Iterative::run starts from is not empty: some supplied individual was taken, or the first check of the
      initial phase passes (then the first initial operator is run to completion) *)
-  Definition starts_nonempty : Prop := seeded cfg <> [] \/ (length (seeded cfg) < c_init_size cfg /\ first_check_passes cfg W).
+  Definition starts_nonempty : Prop :=
+    seeded cfg <> [] \/ (length (seeded cfg) < c_init_size cfg /\ (c_legacy_stop cfg = false \/ first_check_passes cfg W)).
+
+  (* the code as it is: room for one initial solution is enough *)
+  Lemma starts_nonempty_now : c_legacy_stop cfg = false -> 1 <= c_init_size cfg -> starts_nonempty.
+  Proof.
+    intros Hl Hsize. unfold starts_nonempty.
+    assert (Hd : seeded cfg = [] \/ seeded cfg <> []) by (destruct (seeded cfg); [left; reflexivity|right; discriminate]).
+    destruct Hd as [Es|Hne]; [right|left; exact Hne]. rewrite Es. cbn [length]. split; [lia|left; exact Hl].
+  Qed.
 
   Lemma seeded_le : length (seeded cfg) <= c_init_size cfg.
   Proof. unfold seeded. rewrite firstn_length. lia. Qed.
@@ -821,10 +836,17 @@ Section Evolve.
       as (st1 & E1 & Hp1 & Ht1 & Hi1 & (l & Hl & Hlen) & _).
     exists st1. split; [exact E1|]. split; [exact Hp1|]. split; [exact Ht1|]. split; [exact Hi1|].
     cbn [seed s_pop estate0 app] in Hl. split; [rewrite Hl, app_length; lia|]. split; [exists l; exact Hl|].
-    intros [Hne|[Hlt [Hf1 Hf2]]].
+    intros [Hne|[Hlt Hgo]].
     - rewrite Hl. destruct (seeded cfg); [congruence|discriminate].
     - destruct (c_init_size cfg - length (seeded cfg)) as [|n] eqn:En; [lia|].
-      destruct (initial_first n (length (seeded cfg)) (seed cfg estate0) Hf1 Hf2 Hp0) as (st1' & E1' & _ & _ & _ & Hne).
+      assert (Hd : seeded cfg = [] \/ seeded cfg <> []) by (destruct (seeded cfg); [left; reflexivity|right; discriminate]).
+      destruct Hd as [Es|Hne]; [|rewrite Hl; destruct (seeded cfg); [congruence|discriminate]].
+      assert (Hgo' : (c_legacy_stop cfg = false /\ s_pop (seed cfg estate0) = [])
+                     \/ (fst (is_termination (cfg_terms cfg) (t_stat_gen (s_tele (seed cfg estate0))) (o_time W) (o_other W)
+                                             (s_tpolls (seed cfg estate0))) = false
+                         /\ est_exceeds (cfg_terms cfg) (t_stat_gen (s_tele (seed cfg estate0))) (o_init_quota W (length (seeded cfg))) = false)).
+      { destruct Hgo as [Hleg|[Hf1 Hf2]]; [left; split; [exact Hleg|unfold seed; rewrite Es; reflexivity]|right; split; [exact Hf1|exact Hf2]]. }
+      destruct (initial_first n (length (seeded cfg)) (seed cfg estate0) Hgo' Hp0) as (st1' & E1' & _ & _ & _ & Hne).
       rewrite E1 in E1'. injection E1' as <-. exact Hne.
   Qed.
 
@@ -894,7 +916,8 @@ Section Evolve.
   Proof.
     intros Hq. induction n as [|n IH]; intros idx st st1 E HP; cbn [initial] in E; [injection E as <-; exact HP|].
     destruct (is_termination (cfg_terms cfg) (t_stat_gen (s_tele st)) (o_time W) (o_other W) (s_tpolls st)) as [term tp].
-    destruct (est_exceeds (cfg_terms cfg) (t_stat_gen (s_tele st)) (o_init_quota W idx) || term); [injection E as <-; exact HP|].
+    destruct (initial_stops cfg (s_pop st) (est_exceeds (cfg_terms cfg) (t_stat_gen (s_tele st)) (o_init_quota W idx)) term);
+      [injection E as <-; exact HP|].
     destruct (process_quota_first (o_init_ev W idx (init_operator cfg W idx)) q (mkP (init (c_jobs cfg)) (c_reg cfg) (s_polls st) 0) (Hq _))
       as (p & Ep & Hr & _ & _ & _ & Hu).
     rewrite Ep in E. apply (IH _ _ _ E). cbn [s_pop]. apply Forall_app. split; [exact HP|]. constructor; [|constructor].
@@ -910,17 +933,16 @@ Section Evolve.
   Qed.
 
   Theorem evolve_quota_before_construction :
-    1 <= c_init_ops cfg -> 1 <= T -> c_individuals cfg = [] -> 1 <= c_init_size cfg -> first_check_passes cfg W ->
+    1 <= c_init_ops cfg -> 1 <= T -> c_individuals cfg = [] -> starts_nonempty ->
     (forall n, q n = true) ->
     exists best st, evolve cfg W q = EOk best st /\ gens_run (s_tele st) = 0 /\ s_iters st = 0
                     /\ Good jobs best /\ nothing_placed best.
   Proof.
-    intros Hops HT Hind Hsize Hfirst Hq. unfold evolve.
+    intros Hops HT Hind Hstart Hq. unfold evolve.
     assert (E0 : (c_init_ops cfg =? 0) = false) by (apply Nat.eqb_neq; lia). rewrite E0.
     assert (ET : (c_track cfg =? 0) = false) by (apply Nat.eqb_neq; fold T; lia). rewrite ET.
     assert (Hs : seeded cfg = []) by (unfold seeded; rewrite Hind; destruct (c_init_size cfg); reflexivity).
     assert (Hgood : Forall (Good jobs) (c_individuals cfg)) by (rewrite Hind; constructor).
-    assert (Hstart : starts_nonempty) by (right; rewrite Hs; split; [cbn [length]; lia|exact Hfirst]).
     destruct (before_loop Hgood) as (st1 & E1 & Hp1 & Ht1 & Hi1 & _ & _ & Hne1). specialize (Hne1 Hstart).
     assert (HP1 : Forall nothing_placed (s_pop st1)).
     { apply (initial_quota_all Hq _ _ _ _ E1). unfold seed. rewrite Hs. constructor. }
@@ -971,22 +993,48 @@ Theorem evolve_no_initial_operator cfg W q : c_init_ops cfg = 0 -> evolve cfg W 
 Proof. intros H. unfold evolve. rewrite H. reflexivity. Qed.
 
 Theorem evolve_zero_generations cfg W q :
+  c_legacy_stop cfg = true ->
   c_max_gen cfg = Some 0 -> 1 <= c_init_ops cfg -> 1 <= c_track cfg -> seeded cfg = [] -> evolve cfg W q = EErr ErrNoSolution.
 Proof.
-  intros Hc Hops HT Hs. unfold evolve.
+  intros Hleg Hc Hops HT Hs. unfold evolve.
   assert (E0 : (c_init_ops cfg =? 0) = false) by (apply Nat.eqb_neq; lia). rewrite E0.
   assert (ET : (c_track cfg =? 0) = false) by (apply Nat.eqb_neq; lia). rewrite ET.
   assert (Hterm : forall tp, is_termination (cfg_terms cfg) 0 (o_time W) (o_other W) tp = (true, tp)).
   { intros tp. unfold cfg_terms, terminations. rewrite Hc. destruct (c_max_time cfg); reflexivity. }
   assert (Hinit : forall n idx st, s_tele st = tele0 -> exists st1, initial n idx cfg W q st = Some st1 /\ s_pop st1 = s_pop st /\ s_tele st1 = tele0).
   { intros n idx st Ht. destruct n; cbn [initial]; [exists st; repeat split; assumption|].
-    rewrite Ht. change (t_stat_gen tele0) with 0. rewrite Hterm. cbv beta iota zeta. rewrite orb_true_r.
+    rewrite Ht. change (t_stat_gen tele0) with 0. rewrite Hterm. cbv beta iota zeta. unfold initial_stops. rewrite Hleg, orb_true_r.
+    cbn [orb andb].
     eexists. split; [reflexivity|]. split; reflexivity. }
   unfold evolve_run. destruct (Hinit (c_init_size cfg - length (seeded cfg)) (length (seeded cfg)) (seed cfg estate0) eq_refl)
     as (st1 & E1 & Hp1 & Ht1).
   rewrite E1. unfold loop_fuel. rewrite (gen_limit_cfg cfg 0 Hc). cbn [iloop]. rewrite Ht1.
   change (t_stat_gen tele0) with 0. rewrite Hterm. cbv beta iota zeta. cbn [orb]. unfold finish. cbn [strategy_result s_pop].
   rewrite Hp1. unfold seed. rewrite Hs. reflexivity.
+Qed.
+
+(* the code as it is (after the repair of C07-F2): max_generations = 0 still builds ONE initial solution (the stop tests of the
+   initial phase wait for the first solution) and returns it without running a generation *)
+Theorem evolve_zero_generations_now cfg W q :
+  oracles_ok W -> c_legacy_stop cfg = false ->
+  c_max_gen cfg = Some 0 -> 1 <= c_init_ops cfg -> 1 <= c_init_size cfg -> 1 <= c_track cfg ->
+  Forall (Good (c_jobs cfg)) (c_individuals cfg) ->
+  exists best st, evolve cfg W q = EOk best st /\ gens_run (s_tele st) = 0 /\ s_iters st = 0 /\ Good (c_jobs cfg) best.
+Proof.
+  intros HW Hleg Hc Hops Hsize HT Hind. unfold evolve.
+  assert (E0 : (c_init_ops cfg =? 0) = false) by (apply Nat.eqb_neq; lia). rewrite E0.
+  assert (ET : (c_track cfg =? 0) = false) by (apply Nat.eqb_neq; lia). rewrite ET.
+  assert (Hterm : forall tp, is_termination (cfg_terms cfg) 0 (o_time W) (o_other W) tp = (true, tp)).
+  { intros tp. unfold cfg_terms, terminations. rewrite Hc. destruct (c_max_time cfg); reflexivity. }
+  destruct (before_loop cfg W q HW Hind) as (st1 & E1 & Hp1 & Ht1 & Hi1 & _ & _ & Hne1).
+  specialize (Hne1 (starts_nonempty_now cfg W Hleg Hsize)).
+  unfold evolve_run. rewrite E1. unfold loop_fuel. rewrite (gen_limit_cfg cfg 0 Hc). cbn [iloop]. rewrite Ht1.
+  change (t_stat_gen tele0) with 0. rewrite Hterm. cbv beta iota zeta. cbn [orb]. unfold finish. cbn [strategy_result s_pop].
+  destruct (s_pop st1) as [|h t] eqn:Epop; [congruence|].
+  eexists _, _. split; [reflexivity|]. cbn [strategy_result s_tele s_iters]. split; [reflexivity|]. split; [exact Hi1|].
+  assert (Hin : In (nth (o_best W (h :: t)) (h :: t) h) (h :: t)).
+  { destruct (nth_in_or_default (o_best W (h :: t)) (h :: t) h) as [H|H]; [exact H|rewrite H; left; reflexivity]. }
+  exact (proj1 (Forall_forall _ _) Hp1 _ Hin).
 Qed.
 
 (* track_population = 0: `generation % track_population` panics (telemetry.rs on_generation / on_result, mode OnlyMetrics) *)
@@ -1031,7 +1079,7 @@ Lemma initial_pop_prefix cfg W q : forall n idx st st', initial n idx cfg W q st
 Proof.
   induction n as [|n IH]; intros idx st st' E; cbn [initial] in E; [injection E as <-; exists []; rewrite app_nil_r; reflexivity|].
   destruct (is_termination (cfg_terms cfg) (t_stat_gen (s_tele st)) (o_time W) (o_other W) (s_tpolls st)) as [term tp].
-  destruct (est_exceeds (cfg_terms cfg) (t_stat_gen (s_tele st)) (o_init_quota W idx) || term).
+  destruct (initial_stops cfg (s_pop st) (est_exceeds (cfg_terms cfg) (t_stat_gen (s_tele st)) (o_init_quota W idx)) term).
   - injection E as <-. exists []. cbn [s_pop]. rewrite app_nil_r. reflexivity.
   - destruct (process _ q _) as [p|]; [|discriminate]. destruct (IH _ _ _ E) as (e & He).
     exists ([p_sol p] ++ e). rewrite He. cbn [s_pop]. rewrite <- app_assoc. reflexivity.
